@@ -18,6 +18,7 @@ from __future__ import annotations
 import itertools
 import json
 import math
+import os
 
 import numpy as np
 
@@ -449,6 +450,71 @@ def check_pool_replicates(chk, quick):
                      {"level": "pool_replicates", "clause": "mean", "sampler": "importance", "preconditioning": f"pool{workers}"})
 
 
+def check_resumed_from_file_real_flow(chk, quick):
+    """a REAL proposal (zuko, bounded parameters mapped with the default logit) fitted once; SMC runs inside `auto_checkpoint` that die in the
+    middle and are finished by `Aspire.resume_from_file(...)` - which rebuilds the proposal FROM THE FILE - give the same evidence and moments
+    as the closed form (exploration, calibrated bounds): the particles of the checkpoint were weighted under the proposal the file holds"""
+    import tempfile
+
+    import torch
+
+    from aspire import Aspire
+    from aspire.samples import Samples
+
+    from .. import aspire_level as al
+
+    cfg0 = dict(like_center=0.7, like_width=0.2, half=4.0, dims=2)
+    Z, mu = true_values(cfg0)
+    R = 5 if quick else 12
+    case = {"level": "resumed_from_file_real_flow", "backend": "zuko", "replicates": R}
+    chk.count("resumed_from_file_real_flow")
+    chk.case(None, json.dumps(case))
+    tmp = tempfile.mkdtemp(prefix="aspire_verif_")
+    try:
+        t0 = smcrun.Target(2, center=0.7, width=0.2, half=4.0)
+        a = Aspire(log_likelihood=t0.log_likelihood, log_prior=t0.log_prior, dims=2, parameters=["p0", "p1"],
+                   prior_bounds={"p0": [-4.0, 4.0], "p1": [-4.0, 4.0]}, flow_backend="zuko", dtype="float64", seed=2)
+        a.fit(Samples(x=np.random.default_rng(6).normal(0.5, 0.9, (400, 2)).clip(-3.9, 3.9), parameters=["p0", "p1"]), n_epochs=3)
+        # many temperature steps (a high target efficiency), the fault early: several steps remain after the resume, each weighting mutated
+        # particles (log q of the proposal in use) against the checkpointed ones
+        skw = dict(n_samples=250, sampler="smc", sampler_kwargs={"n_steps": 4}, adaptive=True, target_efficiency=0.9)
+        ratios, means = [], []
+        for k in range(R):
+            path = os.path.join(tmp, f"r{k}.h5")
+            t0.fault_at = None
+            with al.orng_seed(50 + k), torch.no_grad():
+                n_before = t0.n_like
+                t0.fault_at = n_before + 9          # inside the kernel of the second iteration
+                try:
+                    with a.auto_checkpoint(path, every=1):
+                        a.sample_posterior(**skw)
+                    continue                         # the run finished before the planted fault
+                except smcrun.FAULTS:
+                    pass
+            t1 = smcrun.Target(2, center=0.7, width=0.2, half=4.0)
+            b = Aspire.resume_from_file(path, log_likelihood=t1.log_likelihood, log_prior=t1.log_prior)
+            with al.orng_seed(150 + k), torch.no_grad():
+                s = b.sample_posterior(sampler_kwargs={"n_steps": 4}, target_efficiency=0.9)
+            ratios.append(math.exp(float(s.log_evidence)) / Z)
+            means.append(float(np.mean(ns.to_np(s.x)[:, 0])))
+        if len(ratios) < 3:
+            chk.count("resumed_from_file_real_flow:too_few_interrupted")
+            return
+        ratios, means = np.asarray(ratios), np.asarray(means)
+        se = max(float(np.std(ratios, ddof=1)) / math.sqrt(len(ratios)), 0.02)
+        chk.extra["resumed_from_file_real_flow"] = {"mean_Zhat_over_Z": round(float(ratios.mean()), 4), "se": round(se, 4), "n": len(ratios)}
+        if abs(ratios.mean() - 1) > 6 * se + 0.1:
+            chk.fail("replicate-averaged Z_hat/Z inside calibrated bounds (exploration)", case,
+                     f"interrupted SMC runs finished through resume_from_file (real zuko proposal rebuilt from the file): mean Z_hat/Z = {ratios.mean():.4f} +- {se:.4f} over {len(ratios)} replicates",
+                     {"level": "resumed_from_file_real_flow", "clause": "evidence", "sampler": "smc", "preconditioning": "resume_from_file"})
+    except Exception as e:   # noqa
+        chk.fail("run total", case, repr(e)[:300], {"level": "resumed_from_file_real_flow", "clause": "raise"})
+    finally:
+        import shutil
+
+        shutil.rmtree(tmp, ignore_errors=True)
+
+
 def m_all_zero_nan(rec, sig):
     s = rec["signature"]
     return s.get("clause") == "all_zero_prior" and s.get("is_nan")
@@ -475,6 +541,7 @@ def run(chk: core.Check):
     check_kernel_quadrature(chk, np.random.default_rng(chk.seed + 1003), 16 if quick else 144)
     check_replicates(chk, r, quick)
     check_pool_replicates(chk, quick)
+    check_resumed_from_file_real_flow(chk, quick)
 
     def search():
         return None
